@@ -12,14 +12,14 @@
 (* property -- those are the clauses of Props*.tla -- but it is what ties    *)
 (* the model that TLC explores exhaustively to the implementation.          *)
 (***************************************************************************)
-EXTENDS PropsCodec, Coins
+EXTENDS PropsCodec, Orders
 
-ModelCovers == /\ Delivered /\ Tx.intact /\ Tx.mut = "" /\ (Supported(st, Tx) \/ StakingSupported(st, Tx) \/ CoinsSupported(st, Tx)) /\ "st" \in DOMAIN ev'
+ModelCovers == /\ Delivered /\ Tx.intact /\ Tx.mut = "" /\ (Supported(st, Tx) \/ StakingSupported(st, Tx) \/ CoinsSupported(st, Tx) \/ OrdersSupported(st, Tx)) /\ "st" \in DOMAIN ev'
                /\ (Tx.type = "RedeemCheck" => (HasArg("issuer") /\ HasArg("proofOk")))
                /\ (Tx.type \in {"CreateToken", "RecreateToken", "CreateCoin", "RecreateCoin"} => Code \notin {203, 204})      \* ticker and name well-formed (not part of the abstract transaction)
 NodeLimits == [maxSupply |-> (Nat2A(1000000) ** Nat2A(1000000000)) ** hist.unit,       \* 10^15 coins
                minSupply |-> hist.unit, minReserve |-> Nat2A(10000) ** hist.unit]
-Predicted == RunTxC(st, Tx, H, Cfg, NodeLimits)
+Predicted == RunTxO(st, Tx, H, Cfg, NodeLimits)
 Conf_Code ==
    Clause("DRIFT", "LedgerModelPredictsCode", ModelCovers, Predicted.code = Code,
           [at |-> WhereTx, predicted |-> Predicted.code])
